@@ -66,5 +66,5 @@ def harness(ctx, wrap=False):
     if wrap:
         return build.build_harness("conf_drive", ["conf_replay.c"], libdir, cflags, extra=["-DCONF_WRAP"],
                                    ldflags=["-Wl,--wrap=system,--wrap=fork,--wrap=vfork,--wrap=execve,--wrap=popen,"
-                                            "--wrap=spiftool_temp_file"])
+                                            "--wrap=spiftool_temp_file,--wrap=malloc,--wrap=realloc,--wrap=free,--wrap=strdup"])
     return build.build_harness("conf_replay", ["conf_replay.c"], libdir, cflags)
